@@ -42,10 +42,13 @@ def build_table(spec):
 _MODEL_CACHE = {}
 
 
-def build_model(spec):
-    """The penman Model object for a spec (the object under test)."""
+def build_model(spec, fresh=False):
+    """The penman Model object for a spec (the object under test).  fresh=True builds a new, short-lived object for
+    default and custom specs (object identity must not matter, and dead models must not leave state behind)."""
     import json
     key = json.dumps(spec, sort_keys=True)
+    if fresh and spec.get('name', 'custom') in ('default', 'custom', 'mini'):
+        _MODEL_CACHE.pop(key, None)
     m = _MODEL_CACHE.get(key)
     if m is not None:
         return m
@@ -67,7 +70,8 @@ def build_model(spec):
             m = NoOpModel(**kw)
         else:
             m = Model(**kw)
-    _MODEL_CACHE[key] = m
+    if not fresh:
+        _MODEL_CACHE[key] = m
     return m
 
 
